@@ -65,7 +65,7 @@ static void across_library_work(const string &desc, double tol, function<void(Si
 // run f under every schedule; compare signatures.  tol==0 -> bit-identical
 static void under_schedules(const string &desc, const char *clause, double tol, const vector<string> &kc, function<void(Sig &)> f) {
     static Sig sigs[4];
-    for (int s = 0; s < 4; s++) { sigs[s].n = 0; sigs[s].aborted = false; mcx::heap_begin(SCHED[s].dir, SCHED[s].reuse, s >= 2 ? 0xA5 : 0); junk(SCHED[s].junk); try { f(sigs[s]); } catch (vpsc::CriticalFailure &) { sigs[s].aborted = true; } catch (std::exception &) { sigs[s].aborted = true; } mcx::heap_end(); }
+    for (int s = 0; s < 4; s++) { sigs[s].n = 0; sigs[s].aborted = false; mcx::heap_begin(SCHED[s].dir, SCHED[s].reuse, s == 3 ? 256 : s == 2 ? 0xA5 : 0); junk(SCHED[s].junk); try { f(sigs[s]); } catch (vpsc::CriticalFailure &) { sigs[s].aborted = true; } catch (std::exception &) { sigs[s].aborted = true; } mcx::heap_end(); }
     ctx.count("transitions", 4); ctx.count("evaluations");
     for (int s = 1; s < 4; s++) {
         if (sigs[s].aborted || sigs[0].aborted) { if (sigs[s].aborted != sigs[0].aborted) ctx.violation(clause, kc, desc, mcx::fmt("assertion under schedule %s only", sigs[s].aborted ? SCHED[s].name : SCHED[0].name)); else ctx.count("aborted_by_assert"); continue; }
@@ -205,13 +205,13 @@ static void pins_phase() {
 }
 // ---- libcola -------------------------------------------------------------------------------
 static void cola_phase(int step) {
-    ctx.phase(mcx::fmt("ConstrainedFDLayout n=3 with constraints and overlap avoidance: 4 heap schedules (positions to 1e-9), every %d-th placement", step));
+    ctx.phase(mcx::fmt("ConstrainedFDLayout n=3 with constraints and overlap avoidance, connected and DISCONNECTED edge sets {0-1 1-2; 0-1; none}: 4 heap schedules incl. dirty memory (positions to 1e-9), every %d-th placement", step));
     double GRID[3] = {0, 10, 30};
-    for (int code = 0; code < 729; code += step) for (int variant = 0; variant < 4; variant++) { if (!ctx.next()) continue;
-        string desc = mcx::fmt("cola n=3 placement code %d variant %d", code, variant); ctx.sample(desc, 1); ctx.count("states"); ctx.count("nontrivial");
+    for (int code = 0; code < 729; code += step) for (int variant = 0; variant < 4; variant++) for (int ev = 0; ev < 3; ev++) { if (!ctx.next()) continue;
+        string desc = mcx::fmt("cola n=3 placement code %d variant %d edges %s", code, variant, ev == 0 ? "0-1 1-2" : ev == 1 ? "0-1 (node 2 isolated)" : "none"); ctx.sample(desc, 1); ctx.count("states"); ctx.count("nontrivial");
         under_schedules(desc, "layout_depends_on_heap", 1e-9, {}, [&](Sig &s) {
             vpsc::Rectangles rs; int c = code; for (int i = 0; i < 3; i++) { double x = GRID[c % 3]; c /= 3; double y = GRID[c % 3]; c /= 3; rs.push_back(new vpsc::Rectangle(x - 10, x + 10, y - 10, y + 10)); }
-            vector<cola::Edge> es = {cola::Edge(0, 1), cola::Edge(1, 2)}; cola::CompoundConstraints ccs;
+            vector<cola::Edge> es; if (ev <= 1) es.push_back(cola::Edge(0, 1)); if (ev == 0) es.push_back(cola::Edge(1, 2)); cola::CompoundConstraints ccs;
             if (variant & 1) ccs.push_back(new cola::SeparationConstraint(vpsc::XDIM, 0, 1, 15)); if (variant & 2) { cola::AlignmentConstraint *a = new cola::AlignmentConstraint(vpsc::YDIM); a->addShape(0, 0); a->addShape(2, 7); ccs.push_back(a); }
             { cola::ConstrainedFDLayout alg(rs, es, 30); alg.setConstraints(ccs); alg.setAvoidNodeOverlaps(variant >= 2); alg.makeFeasible(); alg.run(); }
             for (auto r : rs) { s.add(r->getCentreX()); s.add(r->getCentreY()); delete r; } for (auto cc : ccs) delete cc; });
